@@ -19,10 +19,10 @@ def run(run):
     if res["violated"]:
         raise Infra("BinTree specification violates %s" % res["violated"])
     account_mc(run, res, ACTIONS)
-    exe = build_driver(run, "bt_drv", "bt_drv.c", ["librfn/bintree.c", "librfn/util.c"])
+    exe = build_driver(run, "bt_drv", "bt_drv.c", ["librfn/bintree.c", "librfn/util.c"], libs=["-lpthread"])
     tr = exec_script(run, exe, [], "All %d\n" % (mx + (0 if run.thorough() else 1)), run.path("bt.ndjson"), "all-shapes", timeout=600)
     check_trace(run, "all-shapes", "TraceBinTree", "TraceBinTree_small.cfg", tr, timeout=1700)
     sample_trace(run, tr, 8)
     rn, rmax = (40, 300) if run.thorough() else (6, 48)
-    tr2 = exec_script(run, exe, [], "Random %d %d %d\n" % (run.seed, rn, rmax), run.path("bt-random.ndjson"), "large-shapes", timeout=600)
+    tr2 = exec_script(run, exe, [], "Random %d %d %d\nDeep %d\n" % (run.seed, rn, rmax, 20000 if run.thorough() else 6000), run.path("bt-random.ndjson"), "large-shapes", timeout=600)
     check_trace(run, "large-shapes", "TraceBinTree", "TraceBinTree.cfg", tr2, timeout=1700)
